@@ -280,3 +280,31 @@ def run(repo: Repo, rep: Report, tier: str) -> None:
         rep.check(screened, "C02-R10", f"_expand_merge_edges: expanded edge #{i10 + 1} never starts at an inner merge",
                   "inputs that are merges themselves are expanded first" if screened else
                   "an input that is itself a wire merge becomes the edge's source: `Bundle m = { {b, k}, z };` wires only z to the consumer", xm.loc(c10))
+
+    # ---------------- R11 --------------------------------------------------------------
+    rep.rule("C02-R11", "`bundle[\"t\"]` used as an operand is read on the wire its bundle arrives on: the operand's edge is recorded under the bundle's name, not under t, so the "
+             "planner's colour lookup answers with a fixed default only after it has looked at all recorded edges between the same two entities (and found none, or both colours)")
+    gw = repo.func("ConnectionPlanner.get_wire_color_for_edge")
+    ggw = CFG(gw.node)
+    cgw = canon(gw)
+    WCOL = {"red", "green"}
+    fixed = []
+    for st in ggw.stmts():
+        if isinstance(st, ast.Return) and st.value is not None:
+            v = st.value
+            if isinstance(v, ast.Constant) and v.value in WCOL:
+                fixed.append(st)
+            elif isinstance(v, ast.Call) and call_name(v) == "get" and len(v.args) == 2 and isinstance(v.args[1], ast.Constant) and v.args[1].value in WCOL:
+                fixed.append(st)
+    def _scans(st):
+        return any(isinstance(x, (ast.SetComp, ast.ListComp, ast.GeneratorExp, ast.DictComp, ast.For)) and "_edge_wire_colors" in norm(x) and "source_entity_id" in norm(x) and "sink_entity_id" in norm(x)
+                   for x in ast.walk(st))
+    scans = [s_ for s_ in ggw.stmts() if not isinstance(s_, ast.Return) and _scans(s_)]
+    if not fixed:
+        rep.ok("C02-R11", "get_wire_color_for_edge has no fixed default", "no constant colour is returned", gw.loc())
+    for st in fixed:
+        direct_default = isinstance(st.value, ast.Call)
+        ok11 = (not direct_default) and any(ggw.dominates(sc, st) for sc in scans)
+        rep.check(ok11, "C02-R11", "get_wire_color_for_edge: the fixed default is used only after the edges between the two entities were consulted",
+                  "a scan of the recorded edges dominates the default" if ok11 else
+                  f"`{norm(st)[:70]}` answers `red` for any name that is not an edge name: `b * c[\"coal\"]` reads coal on red while c arrives on green, the product is 0", gw.loc(st))
